@@ -197,7 +197,6 @@ def layer(self, start=None, end=None, value=None, frame=None):
     _check_args_dtypes(start, end)  # conversion to Series required before checking
     df = pd.concat([start, end], axis=1, ignore_index=True)
     start_series = pd.Series(value, index=df.iloc[:, 0])
-    self.initial_value += start_series[start_series.index.isna()].sum()
     if self._data is None:
         to_concat = [
             start_series,
@@ -210,6 +209,8 @@ def layer(self, start=None, end=None, value=None, frame=None):
             self._get_deltas(),
         ]
     deltas = pd.concat(to_concat)
+    # only now: the existing step changes above are derived from the old initial value
+    self.initial_value += start_series[start_series.index.isna()].sum()
 
     self._data = deltas.groupby(deltas.index).sum().rename("delta").to_frame()
     self._valid_deltas = True
